@@ -25,6 +25,22 @@ NEEDS = {
  "C16-b": "a BAM whose very last byte is 0x0A, or read_chunks(S) with S equal to the size of the largest record starting at a chunk start: the record ending exactly at the buffer end is treated as incomplete",
  "C17-a": "an index built from three or more read chunks (a FASTA above ~10 MB with the shipped chunk size; a handful of records under a small chunk-size knob): offsets of records in later chunks wrong",
  "C17-b": "an interval fetched through the string-encoded fast path whose end falls exactly on a line end (stop % bases_per_line == 0): the last line of the interval is never copied (garbage tail)",
+ "C01-d": "SAM with CRLF line ends that mixes records with and without optional tags, and a chunk holding only tag-less records: a shortcut for uniform column counts returns before the carriage return is stripped, quality ends in '\\r' in the chunked read only",
+ "C01-e": "VCF with ##INFO declarations, a record whose LAST INFO item has a one-character value (e.g. ';DP=7') and which is the last record of its chunk: off-by-one in the 'too close to the end of the data' guard, info.DP is 0 for the last record of every chunk",
+ "C02-c": "typed VCF whose header declares a Flag key that is a proper prefix of another INFO key (DB / DBSNP) and a record that has the longer key but not the flag: the flag is reported True",
+ "C02-d": "an unsigned integer column (no field with a sign) holding a value >= 2**53: the digit-matrix product is done in float64 and the value is silently rounded or wrapped",
+ "C03-c": "a negative float that needs all 17 significant digits and a three-digit exponent (e.g. -1.2345678901234567e-100): the vectorised text width of 23 forgets the sign, the last exponent digit is cut",
+ "C03-d": "a SAM table where ONE write call contains both records with optional tags and records without: the empty-tags column is dropped only when all records lack tags, untagged records get a trailing tab",
+ "C04-c": "a negative-step slice covering every record (t[::-1]) of a lazily read table written unmodified: the selection keeps the 'contiguous' flag and the records are written in file order",
+ "C04-d": "on a lazy table, access a list-valued column (BED12 block sizes, typed VCF INFO), then replace ANOTHER field and write (or re-parse through a derived table): the separator is added to the stored field lengths in place",
+ "C20-c": "same change as C04-d, seeded independently for C20: reading a list-valued field of a lazily read chunk makes that column one byte longer for every later use of the chunk and of slices sharing its length table",
+ "C05-d": "u = t[mask] with an all-true boolean ndarray mask, then attribute assignment u.start = ..., then read or write the original t: the lazy fast path returned t itself, so t changes (eager t does not); only visible through attribute assignment",
+ "C11-c": "a streamed (stream=True) track indexed with windows where one window's stop equals the chromosome size exactly: the exclusive stop is clipped to size-1, that row is one element short",
+ "C11-d": "bnp.histogram(stream, bins=<explicit NON-uniform edges>) on a stream of at least two chunks: chunks after the first are counted on an evenly spaced grid",
+ "C15-c": "a float column where every value of the chunk uses scientific notation and the bad value itself contains an 'e' (e.g. '6e-x5'), with at least one record before it in the same chunk: the error offset of the mantissa/exponent sub-array is passed on unchanged, the reported line is too small and chunk-size dependent",
+ "C15-d": "a non-numeric score in an Optional[int] column (BED6/narrowPeak) with at least one '.' placeholder before it in the same chunk: the row index among the present rows is not mapped back through the placeholder mask",
+ "C20-d": "merge_intervals(t, distance > 0) (also Genome.get_intervals(t).merged(distance)) on a table whose stop column is already non-decreasing (no nested interval): the running maximum is skipped and 'stops += distance' runs on the caller's column",
+ "C20-e": "bnp.as_encoded_array(text, QualityEncoding) (or SequenceEntryWithQuality(quality=text)) where text is an in-memory writeable ASCII array: the offset is subtracted in place, the caller's text now holds the codes",
  "C20-b": "an in-memory EncodedRaggedArray with at least one '+'-signed number and NO negative number passed to str_to_int: results stay right, the caller's array is zeroed at the sign",
 }
 for p in sorted(glob.glob(os.path.join(VERIF, "seeded", "*", "meta.json"))):
